@@ -148,3 +148,41 @@ Proof.
   destruct (round_N_pt radix2 fexp32 (fun x => negb (Z.even x)) (F2R (Float radix2 qp E))) as [_ N].
   apply N. exact (generic_format_B2R 24 128 (B754_finite 24 128 false a e Hb)).
 Qed.
+
+(* ---- equal values, equal floats ---- *)
+Lemma finite_eq : forall sg m1 e1 H1 m2 e2 H2 E, E <= e1 -> E <= e2 ->
+  Z.pos m1 * 2 ^ (e1 - E) = Z.pos m2 * 2 ^ (e2 - E) ->
+  B754_finite 24 128 sg m1 e1 H1 = B754_finite 24 128 sg m2 e2 H2.
+Proof.
+  intros sg m1 e1 H1 m2 e2 H2 E L1 L2 Heq.
+  apply B2R_inj; [reflexivity|reflexivity|]. cbn [B2R].
+  rewrite (F2R_change_exp radix2 E _ e1 L1), (F2R_change_exp radix2 E _ e2 L2).
+  change (radix_val radix2) with 2. f_equal. f_equal.
+  destruct sg; cbn [SpecFloat.cond_Zopp].
+  - change (Z.neg m1) with (- Z.pos m1). change (Z.neg m2) with (- Z.pos m2).
+    rewrite !Z.mul_opp_l. f_equal. exact Heq.
+  - exact Heq.
+Qed.
+
+(* a value that is a float already is returned unchanged *)
+Lemma norm32_exact : forall sg m e Hb sm E, E <= e ->
+  sm = SpecFloat.cond_Zopp sg (Z.pos m) * 2 ^ (e - E) ->
+  norm32 sm E sg = B754_finite 24 128 sg m e Hb.
+Proof.
+  intros sg m e Hb sm E L Hsm.
+  set (x := B754_finite 24 128 sg m e Hb).
+  assert (Ex : F2R (Float radix2 sm E) = B2R 24 128 x).
+  { cbn [B2R x]. rewrite (F2R_change_exp radix2 E _ e L). change (radix_val radix2) with 2.
+    rewrite <- Hsm. reflexivity. }
+  assert (Er : rne (F2R (Float radix2 sm E)) = B2R 24 128 x).
+  { rewrite Ex. apply round_generic; [apply valid_rnd_N|]. apply generic_format_B2R. }
+  assert (Nz : B2R 24 128 x <> 0%R).
+  { cbn [B2R x]. intros Z0. apply eq_0_F2R in Z0. destruct sg; discriminate. }
+  assert (P : 0 < 2 ^ (e - E)) by (apply Z.pow_pos_nonneg; lia).
+  destruct (norm32_spec sm E sg) as [my [ey [Hy [N V]]]].
+  - rewrite Hsm. destruct sg; cbn [SpecFloat.cond_Zopp]; lia.
+  - rewrite Hsm. destruct sg; cbn [SpecFloat.cond_Zopp]; lia.
+  - rewrite Er. apply abs_B2R_lt_emax.
+  - rewrite Er. exact Nz.
+  - rewrite N. apply B2R_inj; [reflexivity|reflexivity|]. cbn [B2R]. rewrite V, Er. reflexivity.
+Qed.
